@@ -29,7 +29,8 @@ RULE = ("A reaction line is rendered from a description: 0-4 terms per side over
         "compared field by field with the description (coefficients exactly; parameter to 3 significant digits, exactly "
         "when written with <= 3).  Systems: 1-6 "
         "reaction lines with comments, blank and indented lines; 40 % pass `comment_tokens` (1-3 of # // -- %% ! "
-        "REM ;; /*) and write their comment lines (plain, indented, containing arrows) with those.  Non-trivial = a key beginning with a bracket or carrying "
+        "REM ;; /*) and write their comment lines (plain, indented, containing arrows) with those.  Copy: objects whose four sides are given as OrderedDicts in arbitrary key order (or plain "
+        "dicts), non-trivial when a side is not in sorted order.  Non-trivial = a key beginning with a bracket or carrying "
         "a charge, together with a coefficient > 1 or a repeated key; distinct by case digest.")
 ASSUMPTIONS = ["vlib/gen_formula.py renders the G1 species keys (text only; the composition plays no role here)",
                "keys that are entirely one parenthesised group are excluded (ambiguous with an inactive group): such a "
@@ -785,6 +786,109 @@ def check_system_roundtrip(case, ctx):
         ctx.fail("roundtrip_not_equal:system", text=text)
 
 
+# ---------------------------------------------------------------------------------------------
+# copy of an object whose sides were given in a chosen order (OrderedDict)
+# ---------------------------------------------------------------------------------------------
+
+_SIDES = ("reac", "prod", "inact_reac", "inact_prod")
+
+
+@st.composite
+def copy_cases(draw):
+    """sides as lists of [key index, coefficient] in *arbitrary* key order, each handed to the constructor as an
+    OrderedDict (kept as given) or a plain dict (stored sorted); inactive parts in 40 % of the cases."""
+    pool = draw(key_pool(6))
+    if len(pool) == 1:
+        pool = pool + [{"name": "Q9"}]        # at least two keys, so that a side can be out of order
+    n = len(pool)
+    case = {"kind": draw(st.sampled_from(["Reaction", "Equilibrium"])), "keys": pool, "param": _rt_param(draw)}
+    with_inactive = draw(st.integers(0, 9)) >= 6
+    for name in _SIDES:
+        if name.startswith("inact_") and not (with_inactive and draw(st.integers(0, 3)) > 0):
+            case[name] = []
+        else:
+            nt = min(n, draw(st.sampled_from([2, 1, 2, 3, 4])))
+            idx = draw(st.lists(st.integers(0, n - 1), min_size=nt, max_size=nt, unique=True))
+            case[name] = [[i, draw(_coef())] for i in idx]
+        case[name + "_as"] = draw(st.sampled_from(["odict", "odict", "odict", "dict"]))
+    k = draw(st.integers(0, 9))
+    case["name"] = draw(st.sampled_from(_NAMES)) if k >= 7 else None
+    case["ref"] = draw(st.sampled_from(_REFS)) if k >= 8 else None
+    case["data"] = {"T": draw(st.integers(200, 400))} if draw(st.integers(0, 9)) >= 7 else None
+    return case
+
+
+def check_copy(case, ctx):
+    """'a copy compares equal to its original' for objects with explicitly ordered sides.  The print->parse round
+    trip of such objects is not judged here (from_string always stores sorted sides)."""
+    import chempy
+    from collections import OrderedDict
+    Cls = getattr(chempy, case["kind"])
+    kt = [key_text(k) for k in case["keys"]]
+    exp = {name: {kt[i]: Fraction(_num(c)) for i, c in case[name]} for name in _SIDES}
+    # order in which each side is stored: as given (OrderedDict) / sorted by key (plain dict)
+    order = {name: ([kt[i] for i, _ in case[name]] if case[name + "_as"] == "odict" else sorted(exp[name]))
+             for name in _SIDES}
+    unsorted = [name for name in _SIDES if order[name] != sorted(order[name])]
+    ctx.label(case["kind"], "unsorted_sides=%d" % len(unsorted))
+    if any(name.startswith("inact_") for name in unsorted):
+        ctx.label("unsorted_inactive_side")
+    if case["inact_reac"] or case["inact_prod"]:
+        ctx.label("inactive")
+    if case["data"]:
+        ctx.label("data")
+    ctx.nontrivial(bool(unsorted))
+    p = case["param"]
+    param = None if p is None else (int(p["v"]) if p["t"] == "int" else float(p["v"]))
+    args = {}
+    for name in _SIDES:
+        items = [(kt[i], _num(c)) for i, c in case[name]]
+        args[name] = OrderedDict(items) if case[name + "_as"] == "odict" else dict(items)
+    rxn = Cls(args["reac"], args["prod"], param, args["inact_reac"] or None, args["inact_prod"] or None,
+              name=case["name"], ref=case["ref"], data=dict(case["data"]) if case["data"] else None, checks=())
+    text = str(rxn)
+    cp = rxn.copy()
+    if type(cp) is not Cls:
+        ctx.fail("wrong_class:copy", text=text, got=type(cp).__name__)
+        return
+    ok = judge_stoich(ctx, cp, exp, "copy", text) and judge_param(ctx, cp.param, param, "copy", text)
+    if not ok:
+        return
+    for name in _SIDES:
+        got, orig = list(getattr(cp, name).keys()), list(getattr(rxn, name).keys())
+        if got != orig:
+            ctx.fail("key_order:copy", text=text, side=name, copy=got, original=orig, given=order[name])
+            ok = False
+            break
+    if cp.name != case["name"] or cp.ref != case["ref"] or cp.data != (case["data"] or {}):
+        ctx.fail("keyword:copy", text=text, got=[repr(cp.name), repr(cp.ref), repr(cp.data)[:100]],
+                 expected=[case["name"], case["ref"], case["data"] or {}])
+        ok = False
+    if not (cp == rxn) or not (rxn == cp) or (cp != rxn) or (rxn != cp):
+        ctx.fail("copy_not_equal", text=text, copy_text=str(cp))
+        ok = False
+    if str(cp) != text:
+        ctx.fail("printed_text:copy", text=text, copy_text=str(cp))
+        ok = False
+    if not ok:
+        return
+    # the copy owns its containers: changing them leaves the original as described
+    before = {name: list(getattr(rxn, name).items()) for name in _SIDES}
+    for name in _SIDES:
+        d = getattr(cp, name)
+        d["Zz_new"] = 7
+        for k in list(d)[:1]:
+            if k != "Zz_new":
+                del d[k]
+    cp.data["changed"] = True
+    after = {name: list(getattr(rxn, name).items()) for name in _SIDES}
+    if after != before or not judge_stoich(ctx, rxn, exp, "original_after_changing_copy", text):
+        ctx.fail("copy_shares_container", text=text,
+                 sides=[name for name in _SIDES if after[name] != before[name]])
+    if rxn.data != (case["data"] or {}):
+        ctx.fail("copy_shares_data", text=text, got=repr(rxn.data)[:100])
+
+
 SUBCHECKS = [
     SubCheck("parse", check_parse, strategy=parse_cases(), quick=3000, thorough=120000,
              rule="one Reaction/Equilibrium line: stoichiometry, inactive groups, parameter, name/ref, allowed-key list "
@@ -796,4 +900,8 @@ SUBCHECKS = [
                   "balanced pool reactions with the default checks; substance order; missing key rejected"),
     SubCheck("system_roundtrip", check_system_roundtrip, strategy=system_rt_cases(), quick=500, thorough=20000,
              rule="constructed ReactionSystem -> string() -> from_string: reactions, parameters, substance order, =="),
+    SubCheck("copy", check_copy, strategy=copy_cases(), quick=800, thorough=30000,
+             rule="Reaction/Equilibrium built from OrderedDict (given key order) or dict sides incl. inactive parts, "
+                  "name/ref/data: copy() == original both ways, same key order of every side, same printed text, and "
+                  "changing the copy's containers leaves the original unchanged"),
 ]
